@@ -158,3 +158,65 @@ Print Assumptions C01_export_unavailable_on_custom_suite_refuted.
 Example C01_default_pair_agrees :
   exists o, negotiate cfg_default (with_key cfg_default 1) false = Some (Ok o) /\ o_cid o = None /\ o_alpn o = 0.
 Proof. eexists. vm_compute. repeat split. Qed.
+
+(* ---- agreement on the VALUE of the negotiated name, byte by byte (Neg/C01Names.v, proofs Neg/C01NamesSound.v).
+   Names are byte strings; [alpn12 eqv own cl sl] = what a DTLS 1.2 handshake between a client with list [cl] and a
+   server with list [sl] ends in when names are matched with [eqv] and (own = true) every endpoint stores its OWN
+   spelling of the match / (own = false) the client stores the bytes of the ServerHello.  As coded: byte equality,
+   own = false. *)
+From DtlsV Require Import Neg.C01Names Neg.C01NamesSound.
+
+(* both success => client.alpn = server.alpn as byte strings, for every pair of lists (and the name is in both lists) *)
+Theorem C01_alpn_bytes_agree :
+  forall (cl sl : list name) (c s : name),
+    alpn12_as_coded cl sl = AlpnDone c s -> c = s /\ In c cl /\ In s sl.
+Proof. exact alpn_bytes_agree. Qed.
+Print Assumptions C01_alpn_bytes_agree.
+
+(* ... whatever bytes the ServerHello carries (hook, rogue server) and whatever relation is used for matching:
+   a client that commits the bytes it received holds what the server (which commits the bytes it sent) holds *)
+Theorem C01_alpn_bytes_agree_on_any_server_hello :
+  forall (eqv : name -> name -> bool) (cl : list name) (sel : option name),
+    agree (alpn12_on_wire eqv false cl sel).
+Proof. exact alpn_bytes_agree_on_any_server_hello. Qed.
+Print Assumptions C01_alpn_bytes_agree_on_any_server_hello.
+
+Theorem C01_alpn_bytes_agree_any_matching :
+  forall (eqv : name -> name -> bool) (cl sl : list name) (c s : name),
+    alpn12 eqv false cl sl = AlpnDone c s -> c = s.
+Proof. exact alpn_bytes_agree_any_matching. Qed.
+Print Assumptions C01_alpn_bytes_agree_any_matching.
+
+(* under byte equality storing one's own entry changes nothing *)
+Theorem C01_alpn_own_spelling_harmless_under_byte_equality :
+  forall (own : bool) (cl sl : list name) (c s : name),
+    alpn12 name_eqb own cl sl = AlpnDone c s -> c = s.
+Proof. exact alpn_own_spelling_harmless_under_byte_equality. Qed.
+Print Assumptions C01_alpn_own_spelling_harmless_under_byte_equality.
+
+(* what the comparison with the implementation predicts per configuration: refused by the server exactly when no byte
+   string is in both (non-empty) lists; the client never refuses the honest server; an empty / absent list
+   negotiates nothing *)
+Theorem C01_alpn_refused_iff_no_common_bytes :
+  forall cl sl : list name, cl <> [] -> sl <> [] ->
+    (alpn12_as_coded cl sl = AlpnRefusedByServer <-> forall n, In n cl -> In n sl -> False).
+Proof. exact alpn_refused_iff_no_common_bytes. Qed.
+Print Assumptions C01_alpn_refused_iff_no_common_bytes.
+
+Theorem C01_alpn_client_accepts_honest_server :
+  forall cl sl : list name, alpn12_as_coded cl sl <> AlpnRefusedByClient.
+Proof. exact alpn_client_accepts_honest_server. Qed.
+Print Assumptions C01_alpn_client_accepts_honest_server.
+
+Theorem C01_alpn_absent_or_empty_list_negotiates_nothing :
+  forall (eqv : name -> name -> bool) (own : bool) (cl sl : list name),
+    cl = [] \/ sl = [] -> alpn12 eqv own cl sl = AlpnNone.
+Proof. exact alpn_absent_or_empty_list_negotiates_nothing. Qed.
+Print Assumptions C01_alpn_absent_or_empty_list_negotiates_nothing.
+
+(* the variant: names matched up to ASCII letter case and every endpoint stores its own spelling: both complete,
+   different bytes ("webrtc" / "WebRTC") *)
+Theorem C01_alpn_bytes_agree_refuted :
+  exists (cl sl : list name) (c s : name), alpn12 fold_eqb true cl sl = AlpnDone c s /\ c <> s.
+Proof. exact alpn_own_spelling_after_folded_match_refuted. Qed.
+Print Assumptions C01_alpn_bytes_agree_refuted.
